@@ -19,6 +19,7 @@ import OapiVerif.Model.DateParse
 import OapiVerif.Model.UuidParse
 import OapiVerif.Model.SchemaOrder
 import OapiVerif.Model.Comment
+import OapiVerif.Model.RefPath
 /-!
 Line-protocol driver: one JSON object per line in, one per line out.
 `{"fn": <name>, ...}` ↦ `{"ok": <result>}` or `{"err": "bad-op"}` (never a default).
@@ -370,6 +371,23 @@ def commentD (j : Json) : Except String Json := do
   pure (Json.mkObj [("out", Json.arr (out.map fun (c : Nat) => Json.num (JsonNumber.fromNat c)).toArray),
     ("commented", Json.bool (Comment.allCommented out))])
 
+/-- `refPathToGoType`: ref (hex), imports [[doc hex, pkg hex]], renamed [[section hex, key hex, name hex]]; the naming
+function is the identity (the harness uses names that are their own type names). -/
+def refPathD (j : Json) : Except String Json := do
+  let ref ← getHex j "ref"
+  let imps ← j.getObjValAs? (Array (Array String)) "imports"
+  let rens ← j.getObjValAs? (Array (Array String)) "renamed"
+  let imports ← imps.toList.mapM fun r => do pure ((← unhexStr r[0]!), (← unhexStr r[1]!))
+  let renamed ← rens.toList.mapM fun r => do pure ((← unhexStr r[0]!), (← unhexStr r[1]!), (← unhexStr r[2]!))
+  let env : RefPath.Env := {
+    renamed := fun sec key => (renamed.find? fun r => r.1 = sec ∧ r.2.1 = key).map (·.2.2),
+    imports := imports, typeName := id }
+  pure (match RefPath.refPathToGoType env ref with
+    | .ok t => Json.mkObj [("ok", hexStr t)]
+    | .error .depth => Json.mkObj [("error", "depth")]
+    | .error .unsupported => Json.mkObj [("error", "unsupported")]
+    | .error .unmapped => Json.mkObj [("error", "unmapped")])
+
 /-- `SortedSchemaKeys`: entries as {"k": [bytes…], "o": integer or null}; result = the keys in order. -/
 def schemaKeysD (j : Json) : Except String Json := do
   let es ← (← j.getObjVal? "entries").getArr?
@@ -577,6 +595,7 @@ def dispatch (fn : String) (j : Json) : Except String Json :=
   | "combineParams" => combineParamsD j
   | "schemaKeys" => schemaKeysD j
   | "comment" => commentD j
+  | "refPath" => refPathD j
   | "parseInt" => parseIntD j
   | "parseDate" => parseDateD j
   | "parseUuid" => parseUuidD j
